@@ -2,7 +2,7 @@
    Only statements, each closed by [exact], each followed by Print Assumptions. *)
 From Coq Require Import List ZArith Bool Permutation.
 Import ListNotations.
-From GMS Require Import Expr.C05Expr Expr.C05ExprProofs.
+From GMS Require Import Expr.C05Expr Expr.C05ExprProofs Expr.C05Like Plan.C05Pushdown Plan.C05PushdownProofs Rel.C05Having.
 
 (* the rows of Q are the disjoint union of Q filtered by p, by NOT p and by p IS NULL: for every relation and
    every expression of the modelled language *)
@@ -63,6 +63,67 @@ Theorem C05_push_not_sound_refuted :
   exists r e, is_true (eval r e) = true /\ is_true (eval r (push_not e)) = false.
 Proof. exact push_not_unsound. Qed.
 Print Assumptions C05_push_not_sound_refuted.
+
+(* HAVING keeps exactly the groups whose value of p is TRUE, and the groups split three ways like rows do *)
+Theorem C05_having_keeps_true :
+  forall p keys agg rows g,
+    List.In g (having p keys agg rows) <-> List.In g (group_by keys agg rows) /\ is_true (eval g p) = true.
+Proof. exact having_keeps_true. Qed.
+Print Assumptions C05_having_keeps_true.
+
+Theorem C05_having_partition :
+  forall p keys agg rows,
+    Permutation (group_by keys agg rows)
+      (having p keys agg rows ++ having (Not p) keys agg rows ++ having (IsNull p) keys agg rows).
+Proof. exact having_partition. Qed.
+Print Assumptions C05_having_partition.
+
+(* pushFilters (conjuncts mentioning one table move below inner joins and to the preserved side of left outer joins,
+   never through LIMIT, handled conjuncts are removed from their Filter / join condition) returns the same rows in the
+   same order, for every plan over pairwise distinct tables, every database and every slot ownership *)
+Theorem C05_pushdown_sound :
+  forall own db pl, NoDup (C05Pushdown.tabs pl) ->
+    C05Pushdown.peval own db (C05Pushdown.push_filters own pl) = C05Pushdown.peval own db pl.
+Proof. exact pushdown_sound. Qed.
+Print Assumptions C05_pushdown_sound.
+
+Theorem C05_pushdown_sound_permutation :
+  forall own db pl, NoDup (C05Pushdown.tabs pl) ->
+    Permutation (C05Pushdown.peval own db (C05Pushdown.push_filters own pl)) (C05Pushdown.peval own db pl).
+Proof. intros own db pl H. rewrite (pushdown_sound own db pl H). apply Permutation_refl. Qed.
+Print Assumptions C05_pushdown_sound_permutation.
+
+(* the guard is needed: a conjunct over the null-supplying side pushed below a left outer join changes the result *)
+Theorem C05_pushdown_right_of_left_join_refuted :
+  exists own db f p a b,
+    C05Pushdown.over own (C05Pushdown.tabs b) f = true /\
+    C05Pushdown.peval own db (PFilter f (PJoin true p a b)) <>
+    C05Pushdown.peval own db (C05Pushdown.push_right_of_left_join f p a b).
+Proof. exact pushdown_unsound_right_of_left_join. Qed.
+Print Assumptions C05_pushdown_right_of_left_join_refuted.
+
+(* hoistOutOfScopeFilters: the conjuncts of an EXISTS subquery's filter that mention only outer columns move out
+   (wrapped in IS TRUE); the subquery keeps the rest *)
+Theorem C05_hoist_sound :
+  forall n r S q, length r = n ->
+    let '(hoisted, kept) := hoist n q in
+    exists_sub r S q = (holds r hoisted && exists_sub r S (join_and kept))%bool.
+Proof. exact hoist_sound. Qed.
+Print Assumptions C05_hoist_sound.
+
+(* the LIKE rewrite of simplifyExpression (no wildcard => '=', 'prefix%' => range with incrementLastRune, else residual
+   lower bound AND LIKE) selects exactly the strings the LIKE matches (utf8mb4_0900_bin, valid code points) *)
+Theorem C05_like_rewrite_sound :
+  forall pat s, Forall valid_rune pat -> Forall valid_rune s -> eval_rewrite pat s = like pat s.
+Proof. exact rewrite_like_sound. Qed.
+Print Assumptions C05_like_rewrite_sound.
+
+Theorem C05_like_prefix_range :
+  forall q c hi s,
+    no_wild (q ++ [c]) = true -> valid_rune c -> Forall valid_rune s -> incr_last (q ++ [c]) = Some hi ->
+    like ((q ++ [c]) ++ [37%N]) s = (ge_str s (q ++ [c]) && lt_str s hi)%bool.
+Proof. exact like_prefix_range. Qed.
+Print Assumptions C05_like_prefix_range.
 
 (* non-vacuity: a guarded row/expression on which both rules really rewrite, and a three-row partition *)
 Example C05_nonvacuous :
